@@ -31,6 +31,10 @@ def sites(fn, kind):
             out.append(x)
         if kind=='temp' and isinstance(x, ast.Return) and isinstance(x.value,(ast.Call,ast.BinOp)):
             out.append(x)
+        if kind=='temp2' and isinstance(x, (ast.Assign, ast.Expr, ast.Return)) and isinstance(getattr(x,'value',None), ast.Call) and x.value.args \
+                and isinstance(x.value.args[0], (ast.BinOp, ast.Call, ast.Subscript, ast.Attribute)) and not any(isinstance(y,(ast.Starred,ast.Yield,ast.Await,ast.NamedExpr)) for y in ast.walk(x.value)) \
+                and not (isinstance(x.value.func, ast.Name) and x.value.func.id in ('super',)):
+            out.append(x)
         if kind=='aug' and isinstance(x, ast.AugAssign) and isinstance(x.target, ast.Name):
             out.append(x)
         if kind=='demorgan' and isinstance(x, ast.UnaryOp) and isinstance(x.op, ast.Not) and isinstance(x.operand, ast.BoolOp):
@@ -56,6 +60,25 @@ else:
             x.test=ast.UnaryOp(op=ast.Not(), operand=x.test); x.body, x.orelse = x.orelse, x.body
         elif kind=='flip':
             x.left, x.comparators[0] = x.comparators[0], x.left; x.ops=[FLIP[type(x.ops[0])]()]
+        elif kind=='temp2':
+            class T2(ast.NodeTransformer):
+                def generic_visit(self, node):
+                    for fld, old_ in ast.iter_fields(node):
+                        if isinstance(old_, list):
+                            new_=[]
+                            for v in old_:
+                                if v is x:
+                                    new_.append(ast.Assign(targets=[ast.Name(id='arg_', ctx=ast.Store())], value=x.value.args[0], lineno=0))
+                                    x.value.args[0]=ast.Name(id='arg_', ctx=ast.Load())
+                                    new_.append(x)
+                                elif isinstance(v, ast.AST):
+                                    new_.append(self.visit(v))
+                                else: new_.append(v)
+                            setattr(node, fld, new_)
+                        elif isinstance(old_, ast.AST):
+                            setattr(node, fld, self.visit(old_))
+                    return node
+            T2().visit(fn)
         elif kind=='aug':
             class A(ast.NodeTransformer):
                 def visit_AugAssign(self, node):
